@@ -260,3 +260,39 @@ def _fixture():
     want = {q for q in frepo.mod("tf_pwa/tables.py").funcs if q.startswith("bad_")}
     if got != want or len(want) < 5:
         raise AnalysisError("O-cache fixture: reported %s, expected %s" % (sorted(got), sorted(want)))
+
+
+# ---------------------------------------------------------------------------------------------------------
+# soundness of memoisation: what may be memoised at all
+# ---------------------------------------------------------------------------------------------------------
+BLIND_DECOS = ("simple_cache_fun",)  # cache key = the object only: arguments are ignored after the first call
+STATE_CELLS = ("params", "mask", "mask_factor", "chains", "config")
+
+
+def check_memo_soundness(repo, chk, rule="M-sound"):
+    """a memoised function returns its first result for ever: it must not depend on anything that changes -
+    (i) under an argument-blind memoiser (simple_cache_fun) it takes no argument besides self;
+    (ii) under any memoiser it does not read a model state cell (parameter values, masks, chain selection, config)"""
+    from .effects import Effects
+    from .model import AnalysisError
+    from .resolve import Resolver
+
+    chk.rule(rule, "memoisation is sound: a function under an argument-blind memoiser (simple_cache_fun) has no parameter besides self, and no memoised function (lru_cache / simple_cache_fun) reads a model state cell (parameter values, masks, chain selection, config) - its first result would be served after the state has changed")
+    eff = Effects(repo, Resolver(repo))
+    n = 0
+    for f in _all_functions(repo):
+        if not is_memoised(f):
+            continue
+        n += 1
+        decos = [norm_text(d.func if isinstance(d, ast.Call) else d).split(".")[-1] for d in f.node.decorator_list]
+        blind = any(d in BLIND_DECOS for d in decos)
+        extra = [p for p in f.params if p not in ("self", "cls")]
+        reads = sorted(set(eff.readers.get(f, ())) & set(STATE_CELLS))
+        ok = not (blind and extra) and not reads
+        chk.oblige(rule, "%s [%s]: parameters %s, state cells read: %s" % (f.key, ",".join(d for d in decos if d in MEMO_DECOS), extra or "-", reads or "none"), ok)
+        if blind and extra:
+            chk.violation(rule, f.key, "blind-args", "memoised by the argument-blind %s but takes the arguments %s: every later call gets the result of the first one whatever it passes" % ([d for d in decos if d in BLIND_DECOS][0], extra), file=f.mod.rel, line=f.lineno)
+        if reads:
+            chk.violation(rule, f.key, "reads:" + ",".join(reads), "memoised function depends on the model state cell(s) %s: after the state changes (e.g. set_params in a fit) the stale first result is still returned" % reads, file=f.mod.rel, line=f.lineno)
+    if n < 20:
+        raise AnalysisError("%s: only %d memoised functions found" % (rule, n))
